@@ -1,8 +1,27 @@
 HOOK_COMMITS = ["0cc1f16"]
-FIX_COMMITS = ["f6ef902", "7953ad1", "5a73e74"]
+FIX_COMMITS = ["f6ef902", "7953ad1", "5a73e74", "74bd988", "162c4e5", "d681b06", "d1e67ed", "f178a91"]
 NOTES = "All checks: bin/check <ID> --tier quick|thorough [--replay file]; exit 0/1/2 (2 = TOOL-ERROR). See DESIGN.md."
 NOT_APPLICABLE = {}
+_EVAL_NOTE = "Program-level values of 32/64-bit types are restricted to magnitude < 2^30 (TLC integers); runs outside the modelled fragment are counted as out_of_model and not judged. The typed AST is the checker's (parser desugarings such as <= and op-assignment are already applied), so duplicated evaluation introduced by the parser is not visible in this direction. Trusted: the projection typed AST -> JSON (harness/src/proj.rs), JSON value -> Literal conversion, TLC."
 CHECKS = {
+    "C01": {
+        "text": "GarbleSem.tla is a definitional interpreter of the source language over an explicit state (scope stack, panic set) and Layout.tla the documented bit layout; the real compiler's output for corpus programs and for thousands of generated well-typed programs, in all four configurations, is recorded on boundary-biased inputs and every run is validated by TLC (Trace_Eval.tla): arguments re-encoded, program re-executed by the oracle, output bits compared.",
+        "design_ref": "DESIGN.md §5 C01",
+        "note": _EVAL_NOTE,
+        "technique": "TLA+ executable source semantics; TLC trace validation of recorded compile+eval runs of the real compiler",
+    },
+    "C02": {
+        "text": "Same oracle as C01 with the panic clauses judged: panic flag iff GarbleSem.Run fails, reason equal, reported span that of an admissible first failing operation (the oracle carries the set of admissible first failures where the language leaves the order free), no panic from untaken branches/arms/short-circuited operands; failing-site-dense generated programs and regression witnesses of the repaired panic-record defects.",
+        "design_ref": "DESIGN.md §5 C02",
+        "note": _EVAL_NOTE,
+        "technique": "TLA+ executable source semantics with admissible-first-failure sets; TLC trace validation of recorded runs",
+    },
+    "C14": {
+        "text": "Same oracle as C01 on mutation-heavy generated programs whose main returns every variable in scope: GarbleSem.tla threads an explicit scope stack through blocks, branches, arms, loop iterations and calls (by-value, callee sees constants and parameters only), so any leak of a binding, any aliasing of copies or any wrong merge after control flow changes an observed output.",
+        "design_ref": "DESIGN.md §5 C14",
+        "note": _EVAL_NOTE,
+        "technique": "TLA+ executable source semantics with explicit scope stack; TLC trace validation of recorded runs",
+    },
     "C03": {
         "text": "IntOps.tla defines checked fixed-width arithmetic, shifts, comparisons and casts; TLC emits the complete u8/i8 result tables (16 binary operators x 65536 pairs x 2 types, unary, Boolean, all casts from bool/8/16-bit sources over all source values) which the harness replays into compiled programs in the three operand forms; operands of 16/32/64-bit types and usize (boundary-directed + random) are evaluated on compiled programs and every event is validated by Trace_IntOps.tla on byte limbs (exact sums/products, relational division identity).",
         "design_ref": "DESIGN.md §5 C03",
